@@ -41,3 +41,41 @@ def to_lib(P):
 
 def from_lib(t):
     return None if tuple(t) == (0, 0) else (t[0], t[1])
+
+
+def substitution_supported():
+    """The tiny-curve tier rests on one premise: the module reads its curve from the module-level names P, N, A, B,
+    Gx, Gy, G and nowhere else.  A (correct) optimisation that bakes the real prime into the code - a special-form
+    reduction for 2^256 - 2^32 - 977, precomputed tables - breaks that premise without breaking the property, so
+    the tier must then be skipped, not reported.  Heuristic: no function of the module carries an integer constant
+    of 128 bits or more, and no other module-level integer (or tuple/list/dict of integers) that large exists."""
+    import types
+    import py_ecc.secp256k1.secp256k1 as m
+    known = {"P", "N", "A", "B", "Gx", "Gy", "G"}
+    big = lambda v: isinstance(v, int) and not isinstance(v, bool) and abs(v) >= 1 << 128   # noqa: E731
+
+    def holds_big(v, depth=0):
+        if big(v):
+            return True
+        if depth < 2 and isinstance(v, (tuple, list, set, frozenset)):
+            return any(holds_big(x, depth + 1) for x in v)
+        if depth < 2 and isinstance(v, dict):
+            return any(holds_big(x, depth + 1) for x in list(v.values())[:64]) or any(holds_big(x, depth + 1) for x in list(v)[:64])
+        return False
+
+    def code_consts(code):
+        for c in code.co_consts:
+            if isinstance(c, types.CodeType):
+                yield from code_consts(c)
+            else:
+                yield c
+    for name, v in vars(m).items():
+        if name.startswith("__"):
+            continue
+        if name not in known and holds_big(v):
+            return False, f"module-level constant {name} holds an integer of 128 bits or more"
+        if isinstance(v, types.FunctionType) and v.__module__ == m.__name__:
+            for c in code_consts(v.__code__):
+                if holds_big(c):
+                    return False, f"function {name} carries an integer constant of 128 bits or more"
+    return True, ""
